@@ -226,4 +226,23 @@ PROPS = {
         "trusted_base": ["hand transcription (trace replay each run)", "the oracle decides 'an owned value is reachable within the depth' with AV.Spec.C17.ownsValueSpec on the scenario's own ownership table and documents"],
         "assumptions": [],
     },
+    "C11": {
+        "level": "proof",
+        "lean_modules": ["AV.Lemmas.Panic", "AV.Lemmas.IdLemmas", "AV.Lemmas.PanicProofs", "AV.Props.C11"],
+        "support_modules": ["AV.Pub.Val", "AV.Pub.Util", "AV.Pub.SideEffect", "AV.Pub.FedCallbacks", "AV.Pub.SocialCallbacks", "AV.Pub.BaseActor", "AV.Streams.Literal", "AV.Streams.Decode"],
+        "theorems": [
+            "AV.PanicsIn.sound", "AV.getId_hasScheme", "AV.idsOf_nonnil",
+            "AV.Pub.hasInboxForwardingValues.pnG", "AV.Pub.resolveActors.pnG", "AV.Pub.inboxForwarding.pn", "AV.Pub.fedCb.pn",
+            "AV.Props.C11.postInbox_panics", "AV.Props.C11.postOutbox_panics", "AV.Props.C11.getInbox_panics", "AV.Props.C11.getOutbox_panics",
+            "AV.Props.C11.handler_panics", "AV.Props.C11.send_panics", "AV.Props.C11.handler_never_panics",
+            "AV.Props.C11.duration_total", "AV.Props.C11.no_literal_panics",
+        ],
+        "translator_scope": [r"gen_lean", r"T2 failed"],
+        "runners": [{"args": ["c11-decode", "25"], "timeout": 900},
+                    {"args": ["pub-C11", "1500", "2", "hostile,hostile,hostile,get,hostile,getsocial"], "timeout": 1500}],
+        "exhaustive": {"quick": False, "thorough": False},
+        "rule": "decoder: every example embedded in the four vocabulary files, unmutated and with 25 (thorough: all) single mutations — each member at each depth removed, nulled, emptied or replaced by a value of another kind (17 kinds) — plus every property of the vocabulary given 17 hostile literals (scalar and in an array), plus random byte strings over a JSON-ish alphabet; through streams.ToType and Serialize under recover and a watchdog. handlers: scenarios of every family (inbox, outbox, Send, forwarding, authority, delivery graph, Create, GET) with one or two such mutations applied to the request body, to a document the Transport returns or to a value the Database returns; every Actor method, Send and the handler under recover and a 10 s watchdog; single faults. non-trivial = decoded or rejected / replay conclusive",
+        "trusted_base": ["hand transcription (trace replay each run): a panic of the real code must be a panic of the model at a listed site", "recover()/watchdog in the harness"],
+        "assumptions": ["an application that returns a nil value or nil URL with a nil error breaks its interface contract; panics that need it are not counted as hostile input (DESIGN 5/C11 lists the 26 sites and their class)"],
+    },
 }
